@@ -1218,9 +1218,15 @@ package larking
 // function that writes the field, is checked to set it so where it creates the
 // stream; no message larger than it reaches the decoder, C08)
 //@ immutable F$streamWS.maxRecv except (*Mux).serveHTTP
-//@ func (*streamWS).RecvMsg serves C09 C16 C08 partial pre[protoreflect inv.init inv.keep assert index nil ghost
+// (a WebSocket has no half-close: the client ends its message sequence with a close frame of
+// status 1000, which wsutil.ReadClientData reports as a wsutil.ClosedError; the handler must see
+// that as the clean end of the stream, io.EOF, and every other read failure as an error, C06)
+//@ spec NormalClosure(e) = typeof(e) == typeid("wsutil.ClosedError") && unbox(e, "wsutil.ClosedError").Code == 1000
+//@ func (*streamWS).RecvMsg serves C09 C16 C08 C06 partial pre[protoreflect inv.init inv.keep assert index nil ghost
 //@   requires s != nil && s.method != nil && AllSingular(s.method.body) && impl(m, "proto.Message")
 //@   assert atcall `protojson.Unmarshal(` [websocket-receive-limit C08] len(arg0) <= s.maxRecv
+//@   assert at "return err" [a-normal-closure-is-the-end-of-the-stream-not-an-error C06] !NormalClosure(err)
+//@   witness verifWitnessWSEndOfStream for a-normal-closure
 //@   witness verifWitnessWSLimit for websocket-receive-limit
 //@   loop 1 invariant -1 <= rangeindex && rangeindex < len(s.method.body) && AllSingular(s.method.body) && cur != nil
 //@ func AsHTTPBodyWriter serves C09 C16 partial pre[protoreflect inv.init inv.keep index
